@@ -552,6 +552,16 @@ def init_entries(recipe):
                 i + ".subinterfaces.100.~mssclamp.~ipv6mss=i1380", i + ".subinterfaces.200/",
                 i + ".subinterfaces.200.description=" + hx("op"), i + ".subinterfaces.200.id=i200",
                 i + ".subinterfaces.200.vlan=i200", i + ".subinterfaces.200.~lcp=b1",
+                # second and third parent (same child names, different hidden state)
+                "interfaces.eth2/", "interfaces.eth2.enabled=b1", "interfaces.eth2.name=" + hx("eth2"), "interfaces.eth2.subinterfaces/",
+                "interfaces.eth2.subinterfaces.100/", "interfaces.eth2.subinterfaces.100.id=i100", "interfaces.eth2.subinterfaces.100.vlan=i100",
+                "interfaces.eth2.subinterfaces.100.description=" + hx("op2"),
+                "interfaces.eth2.subinterfaces.200/", "interfaces.eth2.subinterfaces.200.id=i200", "interfaces.eth2.subinterfaces.200.vlan=i200",
+                "interfaces.eth2.subinterfaces.200.~subscriberaccess=b1", "interfaces.eth2.subinterfaces.200.~mssclamp/",
+                "interfaces.eth2.subinterfaces.200.~mssclamp.~enabled=b1", "interfaces.eth2.subinterfaces.200.~mssclamp.~ipv4mss=i1300",
+                "interfaces.eth2.subinterfaces.300/", "interfaces.eth2.subinterfaces.300.id=i300", "interfaces.eth2.subinterfaces.300.vlan=i300",
+                "interfaces.eth2.subinterfaces.300.~lcp=b1",
+                "interfaces.eth3/", "interfaces.eth3.name=" + hx("eth3"), "interfaces.eth3.~lcp=b1",
                 "subscriber-groups/", sg + "/", sg + ".a/", sg + ".a.vlans.0/", sg + ".a.vlans.0.svlan=" + hx("100"),
                 sg + ".a.vlans.0.cvlan=" + hx("any"), sg + ".b/", sg + ".b.vlans.0/",
                 sg + ".b.vlans.0.svlan=" + hx("100" if recipe[1] else "101"), sg + ".b.vlans.0.cvlan=" + hx("any")]
